@@ -70,6 +70,29 @@ MUTANTS = [
     ("c05-pipe-eof-not-closing", "C05", "rpyc/core/stream.py",
      "        except EOFError:\n            self.close()\n            raise\n        except EnvironmentError:",
      "        except EOFError:\n            raise\n        except EnvironmentError:"),
+    # ---- C06
+    ("c06-default-config-shared", "C06", "rpyc/core/protocol.py",
+     "        self._config = DEFAULT_CONFIG.copy()", "        self._config = DEFAULT_CONFIG"),
+    ("c06-plain-assign", "C06", "rpyc/core/protocol.py",
+     "        plain |= config[\"allow_safe_attrs\"] and name in config[\"safe_attrs\"]", "        plain = config[\"allow_safe_attrs\"] and name in config[\"safe_attrs\"]"),
+    ("c06-public-inverted", "C06", "rpyc/core/protocol.py",
+     "        plain |= config[\"allow_public_attrs\"] and not name.startswith(\"_\")", "        plain |= config[\"allow_public_attrs\"] and not name.startswith(\"__\")"),
+    ("c06-cmp-bypass", "C06", "rpyc/core/protocol.py",
+     "            return self._access_attr(type(obj), op, (), \"_rpyc_getattr\", \"allow_getattr\", getattr)(obj, other)",
+     "            return getattr(type(obj), op)(obj, other)"),
+    ("c06-setattr-checks-getattr", "C06", "rpyc/core/protocol.py",
+     "        return self._access_attr(obj, name, (value,), \"_rpyc_setattr\", \"allow_setattr\", setattr)",
+     "        return self._access_attr(obj, name, (value,), \"_rpyc_setattr\", \"allow_getattr\", setattr)"),
+    ("c06-service-setattr-removed", "C06", "rpyc/core/service.py",
+     "    def _rpyc_setattr(self, name, value):\n        raise AttributeError(\"access denied\")", "    def _unused_rpyc_setattr(self, name, value):\n        raise AttributeError(\"access denied\")"),
+    ("c06-restricted-wattrs", "C06", "rpyc/utils/helpers.py",
+     "            if name not in wattrs:", "            if name not in attrs:"),
+    ("c06-twin-preferred", "C06", "rpyc/core/protocol.py",
+     "        if plain and (not has_exposed or hasattr(obj, name)):\n            return name", "        if plain and not has_exposed:\n            return name"),
+    ("c06-bytes-name-unchecked", "C06", "rpyc/core/protocol.py",
+     "        elif type(name) is not str:\n            raise TypeError(\"name must be a string\")", "        elif type(name) is not str:\n            name = str(name)"),
+    ("c06-slave-widens-default", "C06", "rpyc/core/service.py",
+     "        self._conn._config.update(dict(\n            allow_all_attrs=True,", "        from rpyc.core.protocol import DEFAULT_CONFIG as _D\n        _D['allow_all_attrs'] = True\n        self._conn._config.update(dict(\n            allow_all_attrs=True,"),
     # ---- C08
     ("c08-reply-twice", "C08", "rpyc/core/protocol.py",
      "        else:\n            self._send_data(reply)",
